@@ -36,7 +36,7 @@ REG = {
     "C15": {
         "modules": ["VProofs.Props.C15"],
         "theorems": thms("C15", ["C15_detect", "C15_infer"]),
-        "runners": ["pandas", "list"],
+        "runners": ["pandas", "list", "algebra"],
         "relevant": ["contains", "guard", "infer-path", "infer-outcome", "detect-path", "relation-missing"],
     },
     "C16": {
@@ -114,7 +114,7 @@ REG = {
         "modules": ["VProofs.Props.C14"],
         "theorems": thms("C14", ["tableWF", "C14_wf", "C14_order", "C14_nested", "standard_ok", "geometry_ok",
                                  "complete_ok"]),
-        "runners": ["graph"],
+        "runners": ["graph", "algebra"],
     },
     "C17": {
         "modules": ["VProofs.Props.C17"],
